@@ -58,6 +58,12 @@ func ClassifyNATFeature(addresses []string, localIPs []string) (*NatFeature, err
 		if err != nil {
 			return nil, err
 		}
+		if portNum < 1 || portNum > 65535 {
+			return nil, fmt.Errorf("invalid port in address %s", addr)
+		}
+		if net.ParseIP(ip) == nil {
+			return nil, fmt.Errorf("invalid ip in address %s", addr)
+		}
 		if slices.Contains(localIPs, ip) {
 			natFeature.PublicNetwork = true
 		}
